@@ -310,5 +310,5 @@ def run(ctx):
             return
         ctx.note(case, bool(nt), [f"part:{case['part']}"])
 
-    ctx.hyp("c18", S.tapes(900).map(gen), check, ctx.scale(20000, 400000),
+    ctx.hyp("c18", S.mapped(900, gen), check, ctx.scale(20000, 400000),
             shrinker=shrink)
